@@ -16,15 +16,11 @@ NOT_APPLICABLE = {
     "C24": "rejection of invalid programs: " + PURE,
     # not yet built (kept honest: listed until a check exists)
     "C05": "check not built yet in this session (planned, DESIGN.md section 3)",
-    "C06": "check not built yet in this session (planned, DESIGN.md section 3)",
     "C07": "check not built yet in this session (planned, DESIGN.md section 3)",
     "C11": "check not built yet in this session (planned, DESIGN.md section 3)",
-    "C14": "check not built yet in this session (planned, DESIGN.md section 3)",
     "C17": "check not built yet in this session (planned, DESIGN.md section 3)",
     "C19": "check not built yet in this session (planned, DESIGN.md section 3)",
-    "C20": "check not built yet in this session (planned, DESIGN.md section 3)",
     "C25": "check not built yet in this session (planned, DESIGN.md section 3)",
-    "C26": "check not built yet in this session (planned, DESIGN.md section 3)",
 }
 
 NOTES = ("All checks share one pipeline (./check <id>): rsync /repo's working tree to a scratch dir, instrument with simgo, "
@@ -71,5 +67,29 @@ CHECK_META = {
         text=("fault enumeration: for each generated store every fault position of the chosen exporter family is tried on a fresh store; after each attempt "
               "a writer must get every metric's lock, no goroutine of the attempt may remain, and the next export must finish"),
         note="store space sampled; stub connection and ResponseWriter; lock behaviour is simrt's re-implementation of sync.RWMutex semantics (writer preference)",
+    ),
+    "C20": dict(
+        technique="deterministic simulation: real runtime fan-out, loader and VMs under statement-level seeded preemption; gauge-trajectory invariant sampled after every scheduler step plus exactly-once witnesses",
+        design_ref="DESIGN.md section 3, C20",
+        text="exploration: seeded interleavings of a line feeder with reloads landing mid-line; order checked as an invariant after every step, multiplicity at the end",
+        note="sampling of schedules; reload requested through LoadAllPrograms rather than a delivered SIGHUP",
+    ),
+    "C26": dict(
+        technique="deterministic simulation: real loader on a real program directory under the seeded scheduler; set model of running (file, version) pairs observed through per-version counters and loader expvars",
+        design_ref="DESIGN.md section 3, C26",
+        text="exploration: seeded directory histories, reloads at quiescence and while lines flow; the running set is observed by feeding a line after every reload",
+        note="sampling; per-version counters as the observation channel",
+    ),
+    "C14": dict(
+        technique="deterministic simulation: real runtime, store, GC and Prometheus gather under the seeded scheduler and fake clock; line-interpreting reference model over reload histories",
+        design_ref="DESIGN.md section 3, C14",
+        text="exploration: seeded histories over a family of program versions, a conflicting second program, lines, delayed deletes, clock advances and GC; model comparison and a real scrape after every action",
+        note="sampling; value tracking stops after reloads for which the statement promises nothing",
+    ),
+    "C06": dict(
+        technique="deterministic simulation: two real runtimes in one bubble (with and without the other programs) under the seeded scheduler; the observed program's Prometheus series compared with its solo run",
+        design_ref="DESIGN.md section 3, C06",
+        text="exploration: seeded sets of colliding / failing / erroring other programs loaded, replaced and removed while lines flow; differential against a solo run of the observed program",
+        note="sampling; one known finding (one-shot Exporter.Write with same-name different-keys metrics) is avoided in 3 runs of 4 and reported as KNOWN-FINDING by the 4th",
     ),
 }
